@@ -177,7 +177,24 @@ class Flow:
         d = dotted(node.func)
         if recv is None and d is not None and '.' not in d:
             if d in self.env:
-                return None, False
+                # a closure defined in this function, new to the reviewed tree, called by name: followed like a helper,
+                # its free variables reading the current definitions
+                va = self.env[d].single_atom() if isinstance(self.env[d], RF) else None
+                if va is None or self.tab.atoms[va].head != 'localdef' or '%s.%s' % (f.site, d) in known:
+                    return None, False
+                defs = [n for n in ast.walk(f.node) if isinstance(n, (ast.FunctionDef, ast.AsyncFunctionDef))
+                        and n.name == d and n is not f.node]
+                if len(defs) != 1 or not isinstance(defs[0], ast.FunctionDef) or defs[0].decorator_list:
+                    return None, False
+                a = defs[0].args
+                if a.vararg or a.kwarg or a.kwonlyargs or a.posonlyargs:
+                    return None, False
+                if any(isinstance(n, (ast.Yield, ast.YieldFrom, ast.Await, ast.Nonlocal, ast.Global)) for n in ast.walk(defs[0])):
+                    return None, False
+                from .index import FuncInfo
+                g = FuncInfo(f.module, f.qualname + '.' + d, defs[0], cls=None, parent=f)
+                g._closure = True
+                return g, False
             r = ix.resolve_name(f.module, d)
             if r is None and f.parent is not None:
                 r = None
@@ -256,8 +273,16 @@ class Flow:
         for k, v in self.env.items():
             if k.startswith('@'):
                 env[k] = v
+        if getattr(g, '_closure', False):
+            # free variables of a closure read the enclosing definitions as they stand at the call
+            for k, v in self.env.items():
+                if k not in env:
+                    env[k] = v
         child = Flow(g, Conv(t, env, self.conv.canon))
+        from .consts import add_module_constants
+        add_module_constants(child.conv, g.module, self.known)
         child.conv.forward_attrs = getattr(self.conv, 'forward_attrs', False)
+        child.conv.keep_casts = getattr(self.conv, 'keep_casts', False)
         child.conv.erase_broadcast = self.conv.erase_broadcast
         child.ix, child.known = self.ix, self.known
         child._depth = getattr(self, '_depth', 0) + 1
